@@ -179,3 +179,104 @@ Proof.
   destruct p as [a|s|s c0 k|s bs k]; cbn [head_call]; intros Hh Hr; try discriminate.
   inversion Hh; subst. cbn [runs] in Hr. destruct tr as [|e tr']; [destruct Hr|]. destruct Hr as (_ & Hc & _). eauto.
 Qed.
+
+(* ---- monitored safety: a deterministic monitor over the events of a run.
+   Calls issued inside Par branches must be neutral for the monitor (they are
+   checked against the state at the fork), which is the case for every use
+   below: the monitored events are issued by the sequential spine. ------------- *)
+Section Monitor.
+Variable S : Type.
+Variable step : S -> call -> resp -> S.
+Variable okc : S -> call -> Prop.
+
+Definition neutral (c : call) : Prop := forall st r, step st c r = st.
+
+Fixpoint safe {A} (st : S) (p : prog A) : Prop :=
+  match p with
+  | Ret _ => True
+  | Panic _ => True
+  | Do s c k => okc st c /\ forall r, safe (step st c r) (k r)
+  | Par s bs k =>
+      (fix go (bs : list (host * prog resp)) : Prop :=
+         match bs with [] => True | (_, b) :: r => allcalls (fun _ c => okc st c /\ neutral c) b /\ go r end) bs
+      /\ forall rs, safe st (k rs)
+  end.
+
+Fixpoint trace_ok (st : S) (tr : trace) : Prop :=
+  match tr with
+  | [] => True
+  | e :: r => okc st (ev_call e) /\ trace_ok (step st (ev_call e) (ev_resp e)) r
+  end.
+
+Lemma trace_ok_neutral_app st t1 t2 :
+  Forall (fun e => okc st (ev_call e) /\ neutral (ev_call e)) t1 -> trace_ok st t2 -> trace_ok st (t1 ++ t2).
+Proof.
+  induction t1 as [|e r IH]; intros H1 H2; cbn; [exact H2|].
+  inversion H1 as [|? ? [Ho Hn] Hr]; subst. split; [exact Ho|]. rewrite Hn. apply IH; assumption.
+Qed.
+
+Fixpoint safe_sound {A} (p : prog A) {struct p} :
+  forall st, safe st p -> forall tr o, runs p tr o -> trace_ok st tr.
+Proof.
+  destruct p as [a|s|s c k|s bs k]; cbn [safe runs]; intros st Hs tr o Hr.
+  - destruct Hr as [-> _]. exact I.
+  - destruct Hr as [-> _]. exact I.
+  - destruct Hs as [Hc Hk]. destruct tr as [|e tr']; [destruct Hr|].
+    destruct Hr as (_ & Hcall & Hrest). cbn. rewrite Hcall. split; [exact Hc|].
+    eapply (safe_sound _ (k (ev_resp e))); eauto.
+  - destruct Hs as [Hbs Hk].
+    assert (G : forall (bs0 : list (host * prog resp)) acc_tr acc_rs,
+      (fix go (bs : list (host * prog resp)) : Prop :=
+         match bs with [] => True | (_, b) :: r => allcalls (fun _ c => okc st c /\ neutral c) b /\ go r end) bs0 ->
+      Forall (Forall (fun e => okc st (ev_call e) /\ neutral (ev_call e))) acc_tr ->
+      (fix branches (bs : list (host * prog resp)) (acc_tr : list trace) (acc_rs : list (host * resp)) : Prop :=
+         match bs with
+         | [] => exists tpar tk, interleave (rev acc_tr) tpar /\ tr = tpar ++ tk /\ runs (k (rev acc_rs)) tk o
+         | (h, b) :: bs' =>
+             exists tb ob, runs b tb ob /\
+               match ob with
+               | Done r => branches bs' (tb :: acc_tr) ((h, r) :: acc_rs)
+               | Panicked s' => o = Panicked s' /\ exists tpar, interleave (rev (tb :: acc_tr)) tpar /\ tr = tpar
+               end
+         end) bs0 acc_tr acc_rs ->
+      trace_ok st tr).
+    { induction bs0 as [|[h b] bs' IHb]; intros acc_tr acc_rs Hgo Hacc Hrun.
+      - destruct Hrun as (tpar & tk & Hi & -> & Hrk). apply trace_ok_neutral_app.
+        + eapply interleave_Forall; eauto. apply Forall_rev. exact Hacc.
+        + eapply (safe_sound _ (k (rev acc_rs))); eauto.
+      - destruct Hgo as [Hb Hgo]. destruct Hrun as (tb & ob & Hrb & Hrest).
+        assert (Forall (fun e => okc st (ev_call e) /\ neutral (ev_call e)) tb) as Htb.
+        { pose proof (allcalls_sound _ b Hb tb ob Hrb) as F. eapply Forall_impl; [|exact F]. intros e He. exact He. }
+        destruct ob as [r|s'].
+        + apply (IHb (tb :: acc_tr) ((h, r) :: acc_rs)); [exact Hgo|constructor; auto|exact Hrest].
+        + destruct Hrest as (_ & tpar & Hi & ->). rewrite <- (app_nil_r tpar). apply trace_ok_neutral_app; [|exact I].
+          eapply interleave_Forall; eauto. apply Forall_rev. constructor; auto. }
+    eapply G; eauto.
+Qed.
+
+Lemma safe_bind {A B} (p : prog A) (f : A -> prog B) : forall st,
+  safe st p -> (forall st' a, safe st' (f a)) -> safe st (bind p f).
+Proof.
+  induction p as [a|s|s c k IH|s bs k IH] using prog_ind_k; intros st Hp Hf; cbn in *; auto.
+  - destruct Hp as [Hc Hk]. split; auto.
+  - destruct Hp as [Hb Hk]. split; auto.
+Qed.
+
+(* a sub-program all of whose calls are fine in every state and neutral *)
+Lemma safe_of_allcalls {A} (p : prog A) :
+  allcalls (fun _ c => (forall st, okc st c) /\ neutral c) p -> forall st, safe st p.
+Proof.
+  induction p as [a|s|s c k IH|s bs k IH] using prog_ind_k; intros Hp st; cbn in *; auto.
+  - destruct Hp as [[Hc Hn] Hk]. split; [apply Hc|]. intros r. rewrite Hn. apply IH. apply Hk.
+  - destruct Hp as [Hb Hk]. split; [|intros rs; apply IH; apply Hk].
+    clear Hk IH. induction bs as [|[h b] r IHr]; [exact I|]. destruct Hb as [H1 H2]. split; [|apply IHr; exact H2].
+    revert H1. clear. intros H1.
+    (* weaken the predicate pointwise *)
+    assert (W : forall (X : Type) (q : prog X), allcalls (fun _ c => (forall st, okc st c) /\ neutral c) q -> allcalls (fun _ c => okc st c /\ neutral c) q).
+    { fix F 2. intros X q. destruct q as [a|s|s c k|s bs k]; cbn [allcalls]; intros H; auto.
+      - destruct H as [[Hc Hn] Hk]. split; [split; [apply Hc|exact Hn]|]. intros r. apply F. apply Hk.
+      - destruct H as [Hb Hk]. split; [|intros rs; apply F; apply Hk].
+        induction bs as [|[h' b'] r' IHr']; [exact I|]. destruct Hb as [K1 K2]. split; [apply F; exact K1|apply IHr'; exact K2]. }
+    apply W. exact H1.
+Qed.
+End Monitor.
